@@ -322,4 +322,65 @@ def run (md5 : Bytes → Bytes) (s : Ptr) : List (Op Key) → Option (Ptr × Lis
       | none => none
       | some (s2, os) => some (s2, o :: os)
 
+/-! ### the list as the data structure describes it (abstraction function, file view)
+
+Used by the refinement proof (`Proofs/LruRefine`: under the representation invariant
+`slotWalk` returns exactly the abstract slot list) and by the driver's `filecheck` request, which
+looks at a checkpoint file the way an independent reader would: walk `next` from `lru_tail`,
+check every `prev` and `mru_head` against that walk, look at the slots the walk did not reach. -/
+
+/-- slots reached by following `next` from `idx` (the walk of `for_each_entry`, reporting slot
+indices); `none` = index out of range or fuel exhausted (a cycle). -/
+def slotWalk (es : List Entry) : Nat → Nat → Option (List Nat)
+  | 0, idx => if idx = SENT then some [] else none
+  | fuel + 1, idx =>
+    if idx = SENT then some [] else
+    match es[idx]? with
+    | none => none
+    | some e => (slotWalk es fuel e.next).map (idx :: ·)
+
+/-- abstraction function of the pointer layer: the linked slots, LRU tail first. -/
+def Ptr.slots (s : Ptr) : Option (List Nat) := slotWalk s.entries (s.entries.length + 1) s.header.tail
+
+/-- do the `prev` fields mirror the walk? (`p` = expected `prev` of the first slot) -/
+def prevOk (es : List Entry) : Nat → List Nat → Bool
+  | _, [] => true
+  | p, i :: rest => (match es[i]? with | some e => e.prev == p | none => false) && prevOk es i rest
+
+structure FileView where
+  entries : Nat
+  linked : List Key
+  /-- unlinked slots that hold `LruFileEntry::empty()` -/
+  free : Nat
+  /-- unlinked slots that hold anything else -/
+  stale : Nat
+  prevOk : Bool
+  headOk : Bool
+  deriving Repr, DecidableEq
+
+/-- what a header + entry array say when read as a doubly linked list; `none` = the `next` walk
+leaves the array or does not end. -/
+def viewOf (h : Header) (es : List Entry) : Option FileView :=
+  match slotWalk es (es.length + 1) h.tail with
+  | none => none
+  | some L =>
+    let marks : Array Bool := L.foldl (fun a i => a.setIfInBounds i true) (Array.replicate es.length false)
+    let unlinked := (es.zipIdx.filter (fun p => !(marks.getD p.2 false))).map (·.1)
+    some { entries := es.length,
+           linked := L.map (fun i => match es[i]? with | some e => e.ekey | none => []),
+           free := (unlinked.filter (· == Entry.empty)).length,
+           stale := (unlinked.filter (· != Entry.empty)).length,
+           prevOk := prevOk es SENT L,
+           headOk := h.head == L.getLastD SENT }
+
+/-- the checkpoint file of the current generation as `viewOf` sees it: outer `none` = no such
+file or not parseable. -/
+def fileView (md5 : Bytes → Bytes) (s : Ptr) : Option (Option FileView) :=
+  match Files.lookup s.files s.gen with
+  | none => none
+  | some data =>
+    match deserialize md5 data with
+    | none => none
+    | some (h, es) => some (viewOf h es)
+
 end Cascette.Model.LruPtr
